@@ -107,6 +107,37 @@ def _apply(label, fn, v, src_repr):
 
 # ------------------------------------------------------------------------------------------------ (i) lattice
 
+def _dms_obj(a, neg, d, m, sec, form):
+    """DMSAngle through each documented way of giving the sign: the positive flag, the sign on the leading non-zero field
+    (a negative-zero degree when every field is zero or only the degree is), or the formatted string."""
+    if form == "flag":
+        return a.DMSAngle(d, m, sec, positive=not neg)
+    if form == "string":
+        return a.DMSAngle("%s%d %d %s" % ("-" if neg else "", d, m, repr(float(sec))))
+    if not neg:
+        return a.DMSAngle(d, m, sec)
+    if form == "negzero" or (d == 0 and m == 0 and sec == 0):
+        return a.DMSAngle(-float(d), m, sec)                      # -0.0 carries the sign when the degree is zero
+    if d:
+        return a.DMSAngle(-d, m, sec)
+    return a.DMSAngle(0, -m, sec) if m else a.DMSAngle(0, 0, -sec)
+
+
+def _ddm_obj(a, neg, d, minute, form):
+    if form == "flag":
+        return a.DDMAngle(d, minute, positive=not neg)
+    if form == "string":
+        return a.DDMAngle("%s%d %s" % ("-" if neg else "", d, repr(float(minute))))
+    if not neg:
+        return a.DDMAngle(d, minute)
+    if form == "negzero" or (d == 0 and minute == 0):
+        return a.DDMAngle(-float(d), minute)
+    return a.DDMAngle(-d, minute) if d else a.DDMAngle(0, -minute)
+
+
+FORMS = ["flag", "signed", "negzero", "string"]
+
+
 def _sources(neg, d, m, s):
     """The lattice angle held in each of the nine notations (numbers by literal / correctly rounded division, objects by
     their public constructors)."""
@@ -120,7 +151,8 @@ def _sources(neg, d, m, s):
     pos = not neg
     return [("hp", hp), ("dec", dec), ("gon", gon), ("rad", rad),
             ("hpa", a.HPAngle(hp)), ("deca", a.DECAngle(dec)), ("gona", a.GONAngle(gon)),
-            ("dms", a.DMSAngle(d, m, float(s), positive=pos)), ("ddm", a.DDMAngle(d, m + s / 60.0, positive=pos))]
+            ("dms", _dms_obj(a, neg, d, m, float(s), FORMS[(d + m + s) % 4])),
+            ("ddm", _ddm_obj(a, neg, d, m + s / 60.0, FORMS[(d + m + s + 1) % 4]))]
 
 
 def check_lattice(case):
@@ -207,7 +239,7 @@ def enumerate_vectorised(tier, seed, shard, nshards):
 
 # ------------------------------------------------------------------------------------------------ (ii)/(iii) generated
 
-def _build(notation, neg, d, m, s_nano):
+def _build(notation, neg, d, m, s_nano, form="flag"):
     """Source value in `notation` for the angle +-(d deg m min s_nano x 1e-9 sec), using literals / public constructors."""
     a = repo.mod("geodepy.angles")
     places = 13 if d < 512 else 12
@@ -232,9 +264,9 @@ def _build(notation, neg, d, m, s_nano):
     if notation == "rad":
         return float(sg * secs * AR.PI / 648000)
     if notation == "dms":
-        return a.DMSAngle(d, m, float(Fraction(s_nano, 10 ** 9)), positive=not neg)
+        return _dms_obj(a, neg, d, m, float(Fraction(s_nano, 10 ** 9)), form)
     if notation == "ddm":
-        return a.DDMAngle(d, float(m + Fraction(s_nano, 60 * 10 ** 9)), positive=not neg)
+        return _ddm_obj(a, neg, d, float(m + Fraction(s_nano, 60 * 10 ** 9)), form)
     raise HarnessError(notation)
 
 
@@ -242,7 +274,7 @@ def check_chain(case):
     E = _edges()
     notation = case["src"]
     try:
-        v = _build(notation, case["neg"], case["d"], case["m"], case["s_nano"])
+        v = _build(notation, case["neg"], case["d"], case["m"], case["s_nano"], case.get("ctor", "flag"))
     except HarnessError:
         raise
     except Exception as e:   # noqa
@@ -300,7 +332,7 @@ def angle_fields(draw):
         s_nano = draw(st.sampled_from([0, 1, 5 * 10 ** 8, 59999999999, 59999999990, 10 ** 9 - 1, 10 ** 9]))
     if d == 720:
         m, s_nano = 0, 0
-    return {"neg": neg, "d": d, "m": m, "s_nano": s_nano}
+    return {"neg": neg, "d": d, "m": m, "s_nano": s_nano, "ctor": draw(st.sampled_from(FORMS))}
 
 
 chain_cases = st.builds(lambda f, src, chain, num: dict(f, src=src, chain=chain, num=num), angle_fields(), st.sampled_from(AR.NOTATIONS),
@@ -344,7 +376,7 @@ def check_all_chains(case):
     single-edge radian notation included where it occurs) from one source value in one notation."""
     E = _edges()
     notation = case["src"]
-    v0 = _build(notation, case["neg"], case["d"], case["m"], case["s_nano"])
+    v0 = _build(notation, case["neg"], case["d"], case["m"], case["s_nano"], case.get("ctor", "flag"))
     dsf = _fden(notation, v0)
     r0 = repr(v0)
     n = 0
